@@ -47,9 +47,18 @@ impl PartialOrd for PRes {
         Some(self.cmp(o))
     }
 }
+/// A selection that has made this many comparisons is not going to finish (the largest
+/// population is 16 500; sorting it takes ~250 000): the probe then panics, which turns
+/// non-termination into an observed outcome instead of a hung (and memory-eating) check.
+const CMP_BUDGET: usize = 20_000_000;
+
 impl Ord for PRes {
     fn cmp(&self, o: &Self) -> Ordering {
-        RES_CMPS.with(|l| l.borrow_mut().push((self.owner, o.owner, self.case)));
+        RES_CMPS.with(|l| {
+            let mut l = l.borrow_mut();
+            assert!(l.len() < CMP_BUDGET, "selection made more than {CMP_BUDGET} comparisons of results: it does not terminate");
+            l.push((self.owner, o.owner, self.case));
+        });
         // exactly the orders of Score / Error
         if self.error_polarity {
             ec_core::test_results::Error(self.v).cmp(&ec_core::test_results::Error(o.v))
@@ -78,7 +87,11 @@ impl PartialOrd for Probe {
 }
 impl Ord for Probe {
     fn cmp(&self, o: &Self) -> Ordering {
-        IND_CMPS.with(|l| l.borrow_mut().push((self.id, o.id)));
+        IND_CMPS.with(|l| {
+            let mut l = l.borrow_mut();
+            assert!(l.len() < CMP_BUDGET, "selection made more than {CMP_BUDGET} comparisons of individuals: it does not terminate");
+            l.push((self.id, o.id));
+        });
         self.score.cmp(&o.score)
     }
 }
@@ -155,7 +168,28 @@ pub const CONTAINERS: [&str; 4] = ["vec", "deque", "array", "ec"];
 /// the repository's own individual type: `EcIndividual` with a genome SHARED by every other
 /// member (equal genomes must not make individuals compare equal) and real `TestResults` of
 /// `Score` / `Error` values; located by address like the probes
+/// `select_on_ec_inner` on a worker thread with a deadline: the repository's individuals carry
+/// no probe that could bound a runaway selection, so one that does not return within 20 s is
+/// reported as the outcome "hang" (the process exits after its output is written).
+pub static HUNG: std::sync::atomic::AtomicBool = std::sync::atomic::AtomicBool::new(false);
 fn select_on_ec(case: &Value, rng: &mut SmallRng) -> Value {
+    use rand::SeedableRng;
+    if HUNG.load(std::sync::atomic::Ordering::SeqCst) {
+        // one runaway selection is enough: later ones on this flavour are not started
+        return json!({"k": "hang", "msg": "not started: an earlier selection did not return"});
+    }
+    let case = case.clone();
+    let mut own = SmallRng::seed_from_u64(rng.random());
+    let (tx, rx) = std::sync::mpsc::channel();
+    std::thread::spawn(move || {
+        let _ = tx.send(select_on_ec_inner(&case, &mut own));
+    });
+    rx.recv_timeout(std::time::Duration::from_secs(20)).unwrap_or_else(|_| {
+        HUNG.store(true, std::sync::atomic::Ordering::SeqCst);
+        json!({"k": "hang", "msg": "selection did not return within 20 s"})
+    })
+}
+fn select_on_ec_inner(case: &Value, rng: &mut SmallRng) -> Value {
     use ec_core::individual::ec::EcIndividual;
     use ec_core::test_results::{Error, Score};
     let sel = s(&case["sel"]);
@@ -166,7 +200,15 @@ fn select_on_ec(case: &Value, rng: &mut SmallRng) -> Value {
                 .iter()
                 .enumerate()
                 .map(|(k, ind)| {
-                    let vals: Vec<i64> = if sel == "lexicase" { arr(&ind["res"]).iter().map(i).collect() } else { vec![i(&ind["score"])] };
+                    // non-lexicase: result vectors of DIFFERENT lengths whose total is the score (an
+                    // individual compares as its total does, however many cases it was scored on)
+                    let vals: Vec<i64> = if sel == "lexicase" {
+                        arr(&ind["res"]).iter().map(i).collect()
+                    } else {
+                        let mut v = vec![i(&ind["score"])];
+                        v.extend(std::iter::repeat_n(0, k % 3));
+                        v
+                    };
                     EcIndividual::new((k % 2) as u8, vals.into_iter().map($wrap).collect::<TestResults<$ty>>())
                 })
                 .collect();
@@ -370,7 +412,7 @@ pub fn trace(args: &[String]) -> i32 {
         if run % 120 == 7 {
             // a LARGE population whose only extreme members sit at a chosen position (first, last,
             // around 256 / 1024): best, worst, whole-population and small tournaments
-            let n = [257usize, 1000, 1024, 1030, 1279][rng.random_range(0..5)];
+            let n = [257usize, 1000, 1024, 1030, 1279, 4097, 5000, 8200, 16_500][rng.random_range(0..9)];
             let spots = [0usize, 1, 255, 256, 511, n / 2, n - 2, n - 1];
             let (hi, mut lo) = (spots[rng.random_range(0..8)].min(n - 1), spots[rng.random_range(0..8)].min(n - 1));
             if lo == hi {
